@@ -81,7 +81,7 @@ def run_tlc(module, constants, invariants, properties=(), init="Init", nxt="Next
         cfg = os.path.join(d, module + ".cfg")
         write_cfg(cfg, constants, invariants, properties, init, nxt, constraints,
                   action_constraints, view, postcondition=postcondition)
-        cmd = ["java", "-XX:+UseParallelGC", "-Xss16m"]
+        cmd = ["java", "-XX:+UseParallelGC", "-XX:ParallelGCThreads=4", "-Xmx8g", "-Xss16m"]
         if java_opts:
             cmd += list(java_opts)
         cmd += ["-cp", JAR, "tlc2.TLC",
